@@ -129,8 +129,12 @@ def closure(spec, chk, name, max_states=400000, max_depth=None):
             break
         depth += 1
         new = []
+        results = []
         for part in core.pmap(_expand, _chunks(frontier, core.NPROC * 4), chk.seed):
-            for h, k, rk, err in part:
+            results.extend(part)
+        results.sort(key=lambda r: r[0])  # arrival order of shards must not decide which history represents a state
+        if True:
+            for h, k, rk, err in results:
                 transitions += 1
                 if err is not None:
                     failures.append((h, spec.prop + ".build", None, "no exception", err))
